@@ -283,6 +283,23 @@ class _Canonical(ast.NodeTransformer):
         if isinstance(node.op, (ast.BitOr, ast.BitAnd, ast.Add, ast.Mult, ast.BitXor)) and _const_like(l) and not _const_like(r) \
                 and not any(isinstance(x, ast.Constant) and isinstance(x.value, (str, bytes)) for x in (l, r)):
             node.left, node.right = r, l
+            l, r = node.left, node.right
+        # (x & M) >> k  ->  (x >> k) & (M >> k)   for integer literals M, k: the same bits either way (field extraction written
+        # mask-then-shift or shift-then-mask)
+        if isinstance(node.op, ast.RShift) and isinstance(r, ast.Constant) and type(r.value) is int and 0 <= r.value <= 64 and isinstance(l, ast.BinOp) \
+                and isinstance(l.op, ast.BitAnd) and isinstance(l.right, ast.Constant) and type(l.right.value) is int and l.right.value >= 0:
+            return ast.copy_location(ast.BinOp(left=ast.BinOp(left=l.left, op=ast.RShift(), right=ast.Constant(value=r.value)), op=ast.BitAnd(),
+                                               right=ast.Constant(value=l.right.value >> r.value)), node)
+        # <bytes literal> * n  ->  the literal (short ones only)
+        if isinstance(node.op, ast.Mult) and isinstance(l, ast.Constant) and isinstance(l.value, bytes) and isinstance(r, ast.Constant) and type(r.value) is int and 0 <= r.value * len(l.value) <= 64:
+            return ast.copy_location(ast.Constant(value=l.value * r.value), node)
+        return node
+
+    def visit_Slice(self, node):
+        self.generic_visit(node)
+        # x[0:n] -> x[:n]
+        if isinstance(node.lower, ast.Constant) and type(node.lower.value) is int and node.lower.value == 0:
+            node.lower = None
         return node
 
     @staticmethod
@@ -398,6 +415,10 @@ class _Canonical(ast.NodeTransformer):
         if isinstance(node.func, ast.Name) and node.func.id == "len" and len(node.args) == 1 and not node.keywords and isinstance(node.args[0], ast.Constant) \
                 and isinstance(node.args[0].value, (bytes, str)):
             return ast.copy_location(ast.Constant(value=len(node.args[0].value)), node)
+        # bytearray(b'\x00\x00...')  ->  bytearray(n): n zero bytes either way
+        if isinstance(node.func, ast.Name) and node.func.id == "bytearray" and len(node.args) == 1 and not node.keywords and isinstance(node.args[0], ast.Constant) \
+                and isinstance(node.args[0].value, bytes) and node.args[0].value and not any(node.args[0].value):
+            node.args = [ast.Constant(value=len(node.args[0].value))]
         # list() / dict() / tuple() / bytes() / str() without arguments are the empty literals
         if isinstance(node.func, ast.Name) and not node.args and not node.keywords and node.func.id in ("list", "dict", "tuple", "bytes", "str"):
             lit = {"list": ast.List(elts=[], ctx=ast.Load()), "dict": ast.Dict(keys=[], values=[]), "tuple": ast.Tuple(elts=[], ctx=ast.Load()),
@@ -897,6 +918,7 @@ def _pure_self_methods(tree: ast.Module) -> set:
 
 
 _REPO_CALLS: dict = {"sites": {}, "bare": set()}
+_REPO_INTS: dict = {}             # whole package: module-level integer constant name -> value (names bound once, to one value)
 _REPO_STRUCTS: dict = {}          # whole package: module-level struct.Struct constant name -> format
 _REPO_OBSERVATIONAL: set = set()  # whole package: attribute names nothing reads except to report them (effects.observational_attrs_of)
 _REPO_WRITES: dict = {}          # whole package: function/method name -> set of attribute names it may store (transitively, by name), or None = anything
@@ -977,6 +999,13 @@ def _repo_effects(pkg_dir: str, root: str, overlay) -> None:
                     and isinstance(st.value.args[0].value, str):
                 st_defs.setdefault(st.targets[0].id, set()).add(st.value.args[0].value)
     _REPO_STRUCTS = {k: next(iter(v)) for k, v in st_defs.items() if len(v) == 1}
+    global _REPO_INTS
+    int_defs = {}
+    for t in trees:
+        for st in t.body:
+            if isinstance(st, ast.Assign) and len(st.targets) == 1 and isinstance(st.targets[0], ast.Name) and isinstance(st.value, ast.Constant) and type(st.value.value) is int:
+                int_defs.setdefault(st.targets[0].id, set()).add(st.value.value)
+    _REPO_INTS = {k: next(iter(v)) for k, v in int_defs.items() if len(v) == 1}
     global _REPO_OBSERVATIONAL
     from .effects import observational_attrs_of
     _REPO_OBSERVATIONAL = observational_attrs_of(trees)
@@ -1710,6 +1739,35 @@ def _extract_toward_reference(fn: ast.FunctionDef, ref_fn: dict, known: set) -> 
             return _extract_toward_reference(fn, ref_fn, known)
 
 
+def _fuse_unpack_into_star(fn: ast.FunctionDef, known: set) -> None:
+    """`a, b, c = E` directly followed by a statement whose only use of a, b, c is one call `f(..., a, b, c)` with exactly these
+    as its last positional arguments in order (a, b, c fresh, read nowhere else)  ->  `f(..., *E)`.  E is evaluated before f's
+    other arguments instead of among them: required to be names / literals there."""
+    import copy as _copy
+    loads = {}
+    for n in ast.walk(fn):
+        if isinstance(n, ast.Name) and isinstance(n.ctx, ast.Load):
+            loads.setdefault(n.id, []).append(n)
+    for blk in _fn_blocks(fn):
+        for i in range(len(blk) - 1):
+            st = blk[i]
+            if not (isinstance(st, ast.Assign) and len(st.targets) == 1 and isinstance(st.targets[0], ast.Tuple) and len(st.targets[0].elts) >= 2
+                    and all(isinstance(e, ast.Name) for e in st.targets[0].elts)):
+                continue
+            names = [e.id for e in st.targets[0].elts]
+            if any(nm in known or len(loads.get(nm, [])) != 1 for nm in names) or len(set(names)) != len(names):
+                continue
+            nxt = blk[i + 1]
+            for c in [x for x in ast.walk(nxt) if isinstance(x, ast.Call) and not x.keywords]:
+                tail = c.args[-len(names):]
+                if len(c.args) >= len(names) and all(isinstance(a, ast.Name) and a.id == nm for a, nm in zip(tail, names)) \
+                        and all(isinstance(a, (ast.Name, ast.Constant)) for a in c.args[:-len(names)]) and isinstance(c.func, (ast.Name, ast.Attribute)):
+                    c.args = c.args[:-len(names)] + [ast.Starred(value=_copy.deepcopy(st.value), ctx=ast.Load())]
+                    del blk[i]
+                    ast.fix_missing_locations(fn)
+                    return
+
+
 def _fuse_unpack_stores(fn: ast.FunctionDef, known: set) -> None:
     """`a, b = X` / `self.p = a` / `self.q = b` with a, b fresh and not read otherwise  ->  `self.p, self.q = X`."""
     for blk in _fn_blocks(fn):
@@ -2416,6 +2474,7 @@ def canonicalise(tree: ast.Module, rel: str = "") -> ast.Module:
                     def shape():
                         if rf is not None:
                             from . import canon
+                            n._module_int_consts = _REPO_INTS
                             canon.flatten_reraising_try(n, rf)
                             canon.normalise_expression_forms(n, rf)
                             canon.thread_none_flag(n, known)
@@ -2440,6 +2499,7 @@ def canonicalise(tree: ast.Module, rel: str = "") -> ast.Module:
                         _dissolve_setdefault_alias(n, known)
                         _merge_name_alias(n, known)
                         _fuse_unpack_stores(n, known)
+                        _fuse_unpack_into_star(n, known)
                         _inline_fresh_temps(n, known, multi=False)
                         shape()
                         rename()
